@@ -132,10 +132,11 @@ PLAN = {
         assumptions=["collision-free keys; no ValueRefMut::write (drops the replaced value in the caller by design)"],
     ),
     "C09": dict(
-        stages=[ls("C09", q=400)],
+        stages=[ls("C09", q=400), ho("C09", q=40), ga()],
         rule=LS + "; validators: never / only-greater / new-id-even / value-dependent; Coster on",
         clauses=["insert_if_present on absent => false, no callback, cache unchanged", "on resident => update of value and cost", "vetoed insert / insert_with_ttl / insert_if_present: value and remaining TTL unchanged, still reclaimed at the old deadline",
-                 "expired-but-unswept key: both outcomes accepted (the statement does not decide it)"],
+                 "expired-but-unswept key: both outcomes accepted (the statement does not decide it)",
+                 "concurrent / gated (also while the key's first insert is still buffered): insert_if_present returns true only if it replaced a resident value inside the call; a false one leaves no trace of its value"],
         minimum=dict(quick=dict(ls_vetoes=1000, ls_updates=2000)),
         assumptions=[],
     ),
